@@ -241,6 +241,8 @@ func (n *RaftNode) Restore(rc io.ReadCloser) error {
 		if err := n.db.LoadSnapshot(reader); err != nil {
 			return err
 		}
+		// the store was replaced underneath the hyper tree's in-memory cache
+		n.balloon.RebuildCache()
 	}
 
 	if err := n.loadState(); err != nil {
